@@ -132,6 +132,9 @@ def body(chk):
         "pixel patterns name their own cell; special float bit patterns (+-0, +-inf, quiet/signalling NaN payloads, "
         "denormals, max) and 0 / 65535 are planted in every image",
     ]
+    from harness import sessioncheck
+
+    sessioncheck.standard(chk)
     chk.finish(
         rule="cases = every (n,p,prefix,bps,rpc) geometry of the TLC family x filesystems x selections (full image + "
              "TLC-enumerated row progressions) + seeded random geometries outside the bound; distinct = distinct "
